@@ -309,13 +309,78 @@ class StubSocket:
         self.closed = True
 
 
-def gpsd_server(device_name=None):
+class ScriptSocket:
+    """socket.socket as ubxlib.server uses it, following a request script (model/LineBackend.v: gpsd_script_backend):
+    the data socket (AF_INET) delivers the handshake chunks first and then one pending event per recv(); every command
+    on a control socket (AF_UNIX) starts the next scripted attempt and is answered OK / ACK or ERROR."""
+    st = None
+
+    def __init__(self, family=None, typ=None):
+        self.family = family
+        self.buf = None
+
+    def connect(self, addr):
+        pass
+
+    def settimeout(self, t):
+        pass
+
+    def send(self, data):
+        ScriptSocket.st.setdefault('data_sent', []).append(bytes(data))
+        return len(data)
+
+    def sendall(self, data):
+        st = ScriptSocket.st
+        cmd = bytes(data)
+        st.setdefault('commands', []).append(cmd)
+        head, _, hx = cmd.partition(b'=')
+        try:
+            payload = bytes.fromhex(hx.decode('ascii'))
+        except ValueError:
+            payload = b'?' + hx
+        if st['future']:
+            ok, evs = st['future'].pop(0)
+        else:
+            ok, evs = True, []
+        st['pending'] += evs
+        st['clock'].ms += st.get('tx_dt', 0)
+        self.reply = (b'OK\n' if len(st['commands']) % 2 else b'{"class":"ACK"}\r\n') if ok else (b'ERROR\n' if len(st['commands']) % 2 else b'{"class":"ERROR","message":"x"}\n')
+        st['trace'].append(('T', payload, ok))
+        st['heads'] = st.get('heads', []) + [head]
+
+    def recv(self, n):
+        st = ScriptSocket.st
+        if self.family == real_socket.AF_UNIX:
+            return self.reply
+        if st['handshake']:
+            return st['handshake'].pop(0)
+        if st['pending']:
+            d, dt = st['pending'].pop(0)
+            if d and len(d) > n:
+                st['pending'].insert(0, (d[n:], 0))
+                d = d[:n]
+        else:
+            d, dt = None, st['idle']
+        st['clock'].ms += dt
+        st['trace'].append(('R', d or None, dt))
+        if d:
+            return d
+        raise real_socket.timeout('timed out')
+
+    def shutdown(self, how):
+        pass
+
+    def close(self):
+        pass
+
+
+def gpsd_server(device_name=None, sock_cls=None):
     for m in [m for m in sys.modules if m == 'ubxlib.server']:
         del sys.modules[m]
     from ubxlib.frame_factory import FrameFactory
     FrameFactory.destroy()
     import ubxlib.server as SV
-    stub = types.SimpleNamespace(socket=StubSocket, AF_INET=real_socket.AF_INET, AF_UNIX=real_socket.AF_UNIX,
+    stub = types.SimpleNamespace(socket=sock_cls or StubSocket, AF_INET=real_socket.AF_INET, AF_UNIX=real_socket.AF_UNIX,
                                  SOCK_STREAM=real_socket.SOCK_STREAM, SHUT_RDWR=real_socket.SHUT_RDWR,
                                  timeout=real_socket.timeout, error=real_socket.error)
     SV.socket = stub
